@@ -286,7 +286,7 @@ def run(ctx):
     rng = ctx.rng.fork("c09")
     programs = [("corpus/" + n, s) for n, s in nagarun.corpus()]
     programs += [("template/%d" % i, t) for i, t in enumerate(c09gen.TEMPLATES)]
-    ngen = int(os.environ.get("C09_NGEN") or ctx.scale(220, 6000))
+    ngen = int(os.environ.get("C09_NGEN") or ctx.scale(180, 6000))
     for i in range(ngen):
         programs.append(("gen/%d" % i, c09gen.generate(rng.fork("p%d" % i), 2 + i % 3)))
     results = compile_all(tools, programs)
@@ -311,7 +311,7 @@ def run(ctx):
     by_key = {}          # key -> list of (name, src, detail)
     distinct = set()
     outs = []
-    if exe is not None and ok:
+    if exe is not None:      # even when an obligation failed: the search below then finds the failing program
         outs = run_checker(exe, [r["ir"] for (_n, _s, r) in accepted])
     for (name, src, r), out in zip(accepted, outs):
         h = hashlib.sha256(json.dumps(r["ir"], sort_keys=True).encode()).hexdigest()
